@@ -1730,13 +1730,13 @@ impl<'s, X: Item> VecExec<'s, $K, X> {
                     return true;
                 }
                 // the zero()/one() accumulator of Sum / Product: fresh elements, one per lane, in creation order
-                for (k, id) in fresh.iter().filter(|id| tok::origin_of(**id) == Some(Origin::Default)).enumerate() {
-                    lane_of.insert(*id, k % (n * X::W));
-                }
+                // (in which order an implementation creates them is its own business: the lane of such an
+                // element is learned from the first call that combines it with an element of a known lane)
+                let fresh_defaults: Vec<u32> = fresh.iter().copied().filter(|id| tok::origin_of(*id) == Some(Origin::Default)).collect();
                 // --- ownership law of the calls, whatever the shape of the computation: every call is
                 // handed values that are alive and distinct, and of one lane; the value it returns stays
                 // alive, its other by-value operands are gone
-                let mut alive: std::collections::BTreeSet<u32> = lane_of.keys().copied().collect();
+                let mut alive: std::collections::BTreeSet<u32> = lane_of.keys().copied().chain(fresh_defaults.iter().copied()).collect();
                 let mut bad: Option<String> = None;
                 for (ci, c) in log.iter().enumerate() {
                     let last = ci + 1 == log.len() && afired;
@@ -1752,6 +1752,10 @@ impl<'s, X: Item> VecExec<'s, $K, X> {
                             break;
                         }
                         let l = lane_of.get(a).copied();
+                        if l.is_none() {
+                            // a zero() / one() element that no call has placed yet
+                            continue;
+                        }
                         if lane.is_some() && !matches!(mode, 9 | 10) && l != lane {
                             bad = Some(format!("call {}: id {} belongs to lane {:?}, the other operand to lane {:?}", ci + 1, a, l, lane));
                             break;
@@ -1760,6 +1764,11 @@ impl<'s, X: Item> VecExec<'s, $K, X> {
                     }
                     if bad.is_some() {
                         break;
+                    }
+                    if let Some(l) = lane {
+                        for a in args.iter() {
+                            lane_of.entry(*a).or_insert(l);
+                        }
                     }
                     for (ai, a) in args.iter().enumerate() {
                         let borrowed = c.borrowed & (1 << ai) != 0;
@@ -1823,7 +1832,9 @@ impl<'s, X: Item> VecExec<'s, $K, X> {
                             let g = <$K as Kind<X>>::v_field(&res, i).grp();
                             for (j, id) in g.iter().enumerate() {
                                 let lane = lane_of.get(&id).copied();
-                                if lane != Some(i * X::W + j) || !alive.contains(&id) || tok::state_of(id) != Some(St::Live) {
+                                // (a zero() / one() element that never met an operand has no lane of its own)
+                                let lane_ok = lane == Some(i * X::W + j) || (lane.is_none() && fresh_defaults.contains(&id));
+                                if !lane_ok || !alive.contains(&id) || tok::state_of(id) != Some(St::Live) {
                                     tok::raise(V5_ORDER, format!("{} on a {}: position {} of the result holds id {} (lane {:?}, {}), which is not the value the element's operator returned for that lane", what, <$K as Kind<X>>::NAME, i, id, lane, if alive.contains(&id) { "alive" } else { "consumed" }));
                                     ok = false;
                                     break;
